@@ -61,3 +61,21 @@ Inductive LazyValueRef :=
 | LazyValueRef_Object (o : ObjectRef)
 with ArrayRef := mkArrayRef (len : N) (processed_elements : list LazyValueRef) (end_position_of_last_processed_element : N)
 with ObjectRef := mkObjectRef (len : N) (processed_elements : list (LazyValueRef * LazyValueRef)) (end_position_of_last_processed_element : N).
+
+(** field accessors and functional updates, named as translators/rs2v names those of the records it emits itself *)
+Definition StringRef_ptr (s : StringRef) : N := match s with mkStringRef p _ => p end.
+Definition StringRef_len (s : StringRef) : N := match s with mkStringRef _ l => l end.
+Definition ArrayRef_len (a : ArrayRef) : N := match a with mkArrayRef l _ _ => l end.
+Definition ArrayRef_processed_elements (a : ArrayRef) : list LazyValueRef := match a with mkArrayRef _ es _ => es end.
+Definition ArrayRef_end_position_of_last_processed_element (a : ArrayRef) : N := match a with mkArrayRef _ _ e => e end.
+Definition ArrayRef_set_processed_elements (a : ArrayRef) (v : list LazyValueRef) : ArrayRef :=
+  mkArrayRef (ArrayRef_len a) v (ArrayRef_end_position_of_last_processed_element a).
+Definition ArrayRef_set_end_position_of_last_processed_element (a : ArrayRef) (v : N) : ArrayRef :=
+  mkArrayRef (ArrayRef_len a) (ArrayRef_processed_elements a) v.
+Definition ObjectRef_len (o : ObjectRef) : N := match o with mkObjectRef l _ _ => l end.
+Definition ObjectRef_processed_elements (o : ObjectRef) : list (LazyValueRef * LazyValueRef) := match o with mkObjectRef _ es _ => es end.
+Definition ObjectRef_end_position_of_last_processed_element (o : ObjectRef) : N := match o with mkObjectRef _ _ e => e end.
+Definition ObjectRef_set_processed_elements (o : ObjectRef) (v : list (LazyValueRef * LazyValueRef)) : ObjectRef :=
+  mkObjectRef (ObjectRef_len o) v (ObjectRef_end_position_of_last_processed_element o).
+Definition ObjectRef_set_end_position_of_last_processed_element (o : ObjectRef) (v : N) : ObjectRef :=
+  mkObjectRef (ObjectRef_len o) (ObjectRef_processed_elements o) v.
